@@ -101,9 +101,51 @@ pub fn collect_statistics<S: Read>(
 /// Contains the common DLT statistics.
 pub mod common {
     use super::*;
+    #[cfg_attr(feature = "verif_hooks", allow(unused_imports))]
     use rustc_hash::FxHashMap;
 
+    #[cfg(not(feature = "verif_hooks"))]
     type IdMap = FxHashMap<String, LevelDistribution>;
+    /// Verification builds (feature `verif_hooks`) swap the hash map behind the id tables for an
+    /// association list with the same `get_mut` / `insert` / `into_iter` contract.
+    #[cfg(feature = "verif_hooks")]
+    type IdMap = verif_hooks::AssocMap<String, LevelDistribution>;
+
+    /// Model of the id tables for out-of-tree verification harnesses (feature `verif_hooks`). Add-only.
+    #[cfg(feature = "verif_hooks")]
+    #[doc(hidden)]
+    pub mod verif_hooks {
+        pub struct AssocMap<K, V>(Vec<(K, V)>);
+
+        impl<K, V> Default for AssocMap<K, V> {
+            fn default() -> Self {
+                AssocMap(Vec::new())
+            }
+        }
+
+        impl<K: PartialEq, V> AssocMap<K, V> {
+            pub fn get_mut(&mut self, k: &K) -> Option<&mut V> {
+                self.0.iter_mut().find(|(x, _)| x == k).map(|(_, v)| v)
+            }
+            pub fn insert(&mut self, k: K, v: V) -> Option<V> {
+                match self.0.iter_mut().find(|(x, _)| *x == k) {
+                    Some((_, slot)) => Some(std::mem::replace(slot, v)),
+                    None => {
+                        self.0.push((k, v));
+                        None
+                    }
+                }
+            }
+        }
+
+        impl<K, V> IntoIterator for AssocMap<K, V> {
+            type Item = (K, V);
+            type IntoIter = std::vec::IntoIter<(K, V)>;
+            fn into_iter(self) -> Self::IntoIter {
+                self.0.into_iter()
+            }
+        }
+    }
 
     /// Collector for the `StatisticInfo` statistics.
     #[derive(Default)]
